@@ -367,10 +367,17 @@ def run(repo, rep, tier):
         rep.check('policy-map', 'returned verdict is the first component of Policy.evaluate', ok, defs[0] if defs else ep, 'evaluate_policy\'s verdict is not the first component of aconf.policy.evaluate(...)')
     pe = repo.func('policy', 'Policy.evaluate')
     rep.saw(pe)
-    for r in walk_no_nested(pe):
-        if isinstance(r, ast.Return):
-            ok = isinstance(r.value, ast.Tuple) and isinstance(r.value.elts[0], ast.Name) and r.value.elts[0].id == 'ret'
-            rep.check('policy-map', 'Policy.evaluate returns its verdict variable first', ok, r, 'Policy.evaluate does not return the verdict variable as first component')
+    # the first component of what Policy.evaluate returns is its verdict: interpreted (props/_policy.py) on a conforming peer it is True, on a peer with one
+    # cipher removed False -- whichever way the verdict is computed (a flag, the emptiness of the error list)
+    from props import _policy as _P
+    from sa.consteval import ConstEnv as _CEp
+    _consts = _P.class_consts(repo, _CEp(repo))
+    _pol = _P.policies()[0][1]
+    _peers = dict(_P.peers(_pol))
+    for _desc, _want in (('the conforming peer', True), ('Ciphers: last name removed', False)):
+        _res = _P.run(repo, _consts, _pol, _peers[_desc], False, False)
+        rep.evals()
+        rep.check('policy-map', 'Policy.evaluate returns its verdict first (%s -> %s)' % (_desc, _want), all(v is _want for v, e, r, f in _res), pe, 'Policy.evaluate returns %s for %s' % ([r for v, e, r, f in _res][:1], _desc), stmt='evaluate verdict: %s' % _desc)
 
     # ---- rule 6: wrappers ---------------------------------------------------------------------------
     def wrapper(modname):
